@@ -41,7 +41,8 @@ def gen_pair_kw(rng, i, dh_universe, heavy_ok=True):
               ipsec_proto=ipsec_proto, ip_proto=rng.choice(['tcp', 'udp', 'any']), a_port=rng.choice([0, 0, 4500]),
               b_port=rng.choice([0, 23, 443]), dpd=600, lifetime=3600, child_lifetime=rng.choice([300, 60, -1]))
     if mode == 'tunnel' and rng.random() < 0.7:
-        if v6:
+        # every fourth tunnel protects networks of the OTHER address family than the gateways (6in4 / 4in6)
+        if v6 != (rng.random() < 0.25):
             kw.update(a_subnet=f'2001:db8:a:{rng.randrange(1, 0xffff):x}::/64', b_subnet=f'2001:db8:b::/{rng.choice([48, 56, 64, 127])}')
         else:
             kw.update(a_subnet=f'10.{rng.randrange(1, 250)}.0.0/{rng.choice([16, 24, 30, 32])}', b_subnet=f'172.16.{rng.randrange(0, 250)}.0/{rng.choice([24, 25, 31])}')
